@@ -24,7 +24,8 @@ RECURSIVE Rounds(_)
 Rounds(t) == IF t = 0 THEN <<>> ELSE IF t = 1 THEN Round(TRUE) ELSE Rounds(t - 1) \o Round(FALSE)
 
 \* multiple access with U users and D decoders (D = 1: joint)
-MacCalls(U, D) == [i \in 1..U |-> <<"enc", i>>] \o << <<"constraint", 0>>, <<"channel", 0>> >>
+\* encs[i] = identity of the encoder declared for user i (a shared encoder appears several times)
+MacCalls(encs, D) == [i \in 1..Len(encs) |-> <<"enc", encs[i]>>] \o << <<"constraint", 0>>, <<"channel", 0>> >>
                   \o [i \in 1..D |-> <<"dec", i>>]
 
 
